@@ -68,14 +68,14 @@ var (
 	ErrMemdRollback          = errors.New("rollback")
 	ErrNoSupportedMechanisms = errors.New("no supported authentication mechanisms")
 
-	ErrDCPStreamClosed        = errors.New("stream closed")
-	ErrDCPStreamStateChanged  = errors.New("stream state changed")
-	ErrDCPStreamDisconnected  = errors.New("stream disconnected")
-	ErrDCPStreamTooSlow       = errors.New("stream too slow")
-	ErrDCPBackfillFailed      = errors.New("backfill failed")
-	ErrDCPStreamFilterEmpty   = errors.New("stream filter empty")
+	ErrDCPStreamClosed         = errors.New("stream closed")
+	ErrDCPStreamStateChanged   = errors.New("stream state changed")
+	ErrDCPStreamDisconnected   = errors.New("stream disconnected")
+	ErrDCPStreamTooSlow        = errors.New("stream too slow")
+	ErrDCPBackfillFailed       = errors.New("backfill failed")
+	ErrDCPStreamFilterEmpty    = errors.New("stream filter empty")
 	ErrDCPStreamLostPrivileges = errors.New("stream lost privileges")
-	ErrDCPStreamIDInvalid     = errors.New("stream id invalid")
+	ErrDCPStreamIDInvalid      = errors.New("stream id invalid")
 )
 
 type RetryReason interface {
@@ -132,6 +132,12 @@ func (err DCPRollbackError) Unwrap() error { return err.InnerError }
 // ---- DCP event structs -------------------------------------------------------------------------
 
 type SnapshotState uint32
+
+// (as in gocbcore: bit 0 = memory, bit 1 = disk, bit 2 = checkpoint, bit 3 = ack)
+func (s SnapshotState) HasInMemory() bool   { return uint32(s)&1 != 0 }
+func (s SnapshotState) HasOnDisk() bool     { return uint32(s)&2 != 0 }
+func (s SnapshotState) HasCheckpoint() bool { return uint32(s)&4 != 0 }
+func (s SnapshotState) HasAck() bool        { return uint32(s)&8 != 0 }
 
 type DcpSnapshotMarker struct {
 	StartSeqNo, EndSeqNo                                   uint64
